@@ -311,3 +311,33 @@ def _fem(env, **cfg):
 def _atmos(env):
     env.assumptions.add("scipy Akima1DInterpolator.derivative(1) is the derivative of the interpolant (external contract)")
     derivative_contract(env, lambda: cls("common.atmos_comp.AtmosComp")(), pre=lambda env, h: env.use_helpers("atmos"))
+
+
+# ------------------------------------------------------------------------------------------- multi-section components
+
+def _sections(nys, nx=2, tc=False):
+    secs = []
+    for k, ny in enumerate(nys):
+        d = dict(name="sec%d" % k, mesh=mesh(nx, ny, False))
+        if tc:
+            d["t_over_c_cp"] = np.array([0.12])
+        secs.append(d)
+    return secs
+
+
+@job("deriv.GeomMultiUnification", ("C01", "C02", "C03", "C14"),
+     cfgs=[dict(nys=(3, 3), shift=True, tc=False), dict(nys=(2, 3, 2), shift=True, tc=False), dict(nys=(3, 2), shift=False, tc=False),
+           dict(nys=(3, 3), shift=True, tc=True), dict(nys=(3, 4, 2), shift=True, tc=False, _tier=T)])
+def _unification(env, nys, shift, tc):
+    env.add_ranges(*MESH_RANGES)
+    derivative_contract(env, lambda: cls("geometry.geometry_unification.GeomMultiUnification")(
+        sections=_sections(nys, tc=tc), surface_name="surface", shift_uni_mesh=shift))
+
+
+@job("deriv.GeomMultiJoin", ("C01", "C02", "C03"),
+     cfgs=[dict(nys=(3, 3), dims=((1, 1, 1),)), dict(nys=(2, 3, 2), dims=((1, 0, 1), (1, 0, 1))), dict(nys=(3, 2), dims=()),
+           dict(nys=(3, 3, 3), dims=((1, 1, 1), (1, 1, 1), (1, 1, 1)), _tier=T)])
+def _join(env, nys, dims):
+    env.add_ranges(*MESH_RANGES)
+    derivative_contract(env, lambda: cls("geometry.geometry_multi_join.GeomMultiJoin")(
+        sections=_sections(nys), dim_constr=[np.array(d) for d in dims]))
